@@ -399,7 +399,11 @@ pub fn check_lookup_constraints<F: RichField + Extendable<D>, const D: usize>(
     );
 
     // Check initial Sum constraint.
-    constraints.push(lookup_selectors[LookupSelectors::InitSre as usize] * z_x_lookup_sldcs[0]);
+    // The running sum of a table row starts from the last SLDC polynomial of the row after it
+    // (`prev` below for `poly == 0`), so that is the value which must be pinned to zero.
+    constraints.push(
+        lookup_selectors[LookupSelectors::InitSre as usize] * z_x_lookup_sldcs[num_sldc_polys - 1],
+    );
 
     // Check initial RE constraint.
     constraints.push(lookup_selectors[LookupSelectors::InitSre as usize] * z_re);
@@ -569,7 +573,11 @@ pub fn check_lookup_constraints_batch<F: RichField + Extendable<D>, const D: usi
     );
 
     // Check initial Sum constraint.
-    constraints.push(lookup_selectors[LookupSelectors::InitSre as usize] * z_x_lookup_sldcs[0]);
+    // The running sum of a table row starts from the last SLDC polynomial of the row after it
+    // (`prev` below for `poly == 0`), so that is the value which must be pinned to zero.
+    constraints.push(
+        lookup_selectors[LookupSelectors::InitSre as usize] * z_x_lookup_sldcs[num_sldc_polys - 1],
+    );
 
     // Check initial RE constraint.
     constraints.push(lookup_selectors[LookupSelectors::InitSre as usize] * z_re);
@@ -1026,10 +1034,10 @@ pub fn check_lookup_constraints_circuit<F: RichField + Extendable<D>, const D: u
         z_x_lookup_sldcs[num_sldc_polys - 1],
     ));
 
-    // Check initial Sum constraint.
+    // Check initial Sum constraint (on the polynomial the first table row starts from).
     constraints.push(builder.mul_extension(
         lookup_selectors[LookupSelectors::InitSre as usize],
-        z_x_lookup_sldcs[0],
+        z_x_lookup_sldcs[num_sldc_polys - 1],
     ));
 
     // Check initial RE constraint.
